@@ -8,7 +8,7 @@ module for the duration of a `with` block and, for destinations that are object 
 the watched store roots:
 
   * logs the attempt,
-  * raises OSError(EIO) if the object id is in `fail`,
+  * raises OSError(<drawn errno: EIO, ENOENT, EACCES, ENOSPC>) if the object id is in `fail`,
   * raises Abort (a BaseException: models "the process died here") at the k-th attempt,
   * otherwise performs the call, logs the completion and calls `monitor(root, oid)`.
 
@@ -28,12 +28,13 @@ class Abort(BaseException):
 
 
 class Injector:
-    def __init__(self, roots, fail=(), abort_at=None, monitor=None, fail_once=False):
+    def __init__(self, roots, fail=(), abort_at=None, monitor=None, fail_once=False, err="EIO"):
         self.roots = [os.path.realpath(r) for r in roots]
         self.fail = set(fail)
         self.abort_at = abort_at
         self.monitor = monitor
         self.fail_once = fail_once
+        self.err = err  # errno name of the injected failure (ENOENT gives a FileNotFoundError, ...)
         self.attempts = []   # (root, oid)
         self.completed = []  # (root, oid)
         self.faulted = []    # (root, oid)
@@ -74,7 +75,7 @@ class Injector:
                     self.faulted.append((root, oid))
                     if self.fail_once:
                         self.fail.discard(oid)
-                    raise OSError(errno.EIO, f"injected upload failure for {oid}")
+                    raise OSError(getattr(errno, self.err), f"injected upload failure for {oid}")
                 ret = orig(src, dst, *a, **kw)
                 self.completed.append((root, oid))
                 if self.monitor is not None:
